@@ -16,6 +16,7 @@ import (
 	"github.com/gopacket/gopacket/layers"
 
 	"github.com/spq/pkappa2/internal/index"
+	"github.com/spq/pkappa2/internal/index/converters"
 	"github.com/spq/pkappa2/internal/query"
 	"github.com/spq/pkappa2/internal/tools/bitmask"
 	"github.com/spq/pkappa2/verif/simrt"
@@ -287,3 +288,39 @@ func (mgr *Manager) VerifFeedPcapOverIP(frames [][]byte, timesUS []int64) {
 		mgr.pcapOverIPPackets <- pcapOverIPPacket{layers.LinkTypeEthernet, f, ci}
 	}
 }
+
+// VerifConverterFileEvent does what the converter directory watcher does when
+// the file of converter name is removed ("remove"), created ("create") or
+// written/chmod-ed ("write"): the same closures, posted to the service loop.
+// (The watcher itself gets its events from inotify in real time; the harness
+// leaves the files alone and delivers the events at steps of the schedule.)
+func (mgr *Manager) VerifConverterFileEvent(kind, name string) error {
+	path := filepath.Join(mgr.ConverterDir, name)
+	c := make(chan error)
+	mgr.jobs <- func() {
+		var err error
+		switch kind {
+		case "remove":
+			err = mgr.removeConverter(path)
+			mgr.event(Event{
+				Type: "converterDeleted",
+				Converter: &converters.Statistics{
+					Name:      name,
+					Processes: []converters.ProcessStats{},
+				},
+			})
+		case "create":
+			if err = mgr.addConverter(path); err == nil {
+				mgr.event(Event{
+					Type:      "converterAdded",
+					Converter: mgr.converters[name].Statistics(),
+				})
+			}
+		case "write":
+			err = mgr.restartConverterProcess(path)
+		}
+		c <- err
+	}
+	return <-c
+}
+
